@@ -34,7 +34,10 @@ Proof. apply le_map_err. Qed.
 Lemma le_rewrap {A} c (o o' : outcome A) : le_out o o' -> le_out (rewrap c o) (rewrap c o').
 Proof. apply le_map_err. Qed.
 
-Lemma le_mapM {A B} (g g' : A -> outcome B) l :
+Lemma le_rewrap_path {A} (o o' : outcome A) : le_out o o' -> le_out (rewrap_path o) (rewrap_path o').
+Proof. apply le_map_err. Qed.
+
+Lemma le_mapM{A B} (g g' : A -> outcome B) l :
   (forall x, le_out (g x) (g' x)) -> le_out (mapM g l) (mapM g' l).
 Proof.
   intros H. induction l as [|x t IH]; cbn; [apply le_refl|].
@@ -74,6 +77,7 @@ Ltac le_solve_with tac :=
   | |- le_out (bind _ _) (bind _ _) => apply le_bind; [| intros ?]
   | |- le_out (seg _ _) (seg _ _) => apply le_seg
   | |- le_out (rewrap _ _) (rewrap _ _) => apply le_rewrap
+  | |- le_out (rewrap_path _) (rewrap_path _) => apply le_rewrap_path
   | |- le_out (map_err _ _) (map_err _ _) => apply le_map_err
   | |- le_out (mapMi _ _ _) (mapMi _ _ _) => apply le_mapMi; intros ? ?
   | |- le_out (mapM _ _) (mapM _ _) => apply le_mapM; intros ?
